@@ -250,3 +250,157 @@ Proof.
   - apply behaviour_conservative, trun_behaviour, H.
   - apply fresh_good, F.
 Qed.
+
+(** ** What every marketplace call preserves, every reaction preserves — at any depth
+
+    For the facts below nothing needs to be assumed about who calls ([outside_ok] plays no part):
+    [reaction] is [behaviour] without that side condition. *)
+Inductive reaction : (world -> world) -> Prop :=
+| r_id : reaction (fun w => w)
+| r_seq k1 k2 : reaction k1 -> reaction k2 -> reaction (fun w => k2 (k1 w))
+| r_call o k : reaction k -> reaction (fun w => fst (gstep k w o)).
+
+Lemma behaviour_reaction K self k : behaviour K self k -> reaction k.
+Proof. induction 1; [apply r_id | apply r_seq; assumption | apply r_call; assumption]. Qed.
+
+Lemma tstep_reaction (t : rop) : reaction (fun w => fst (tstep w t)).
+Proof.
+  revert t. fix IHt 1. intros [o prog]. cbn [tstep]. apply r_call.
+  induction prog as [|t' r IHr]; cbn [fold_left].
+  - apply r_id.
+  - apply (r_seq (fun w => fst (tstep w t')) (fun w => fold_left (fun w2 t'' => fst (tstep w2 t'')) r w)).
+    + apply IHt.
+    + apply IHr.
+Qed.
+
+Lemma trun_reaction prog : reaction (fun w => trun w prog).
+Proof.
+  unfold trun. induction prog as [|t r IH]; cbn [fold_left].
+  - apply r_id.
+  - apply (r_seq (fun w => fst (tstep w t)) (fun w => fold_left (fun w2 t'' => fst (tstep w2 t'')) r w)).
+    + apply tstep_reaction.
+    + apply IH.
+Qed.
+
+Lemma enter_market w o w1 sender fs m fail :
+  enter w o = Some (Ok (w1, sender, fs, m, fail)) -> market w1 = market w.
+Proof.
+  intros En. destruct o; simpl in En; try discriminate; inversion En as [E']; clear En.
+  - step E'. inv E'. reflexivity.
+  - destruct (kind w token); try discriminate. step E'. inv E'. reflexivity.
+  - destruct (kind w coll); try discriminate. step E'. inv E'. reflexivity.
+Qed.
+
+Section DeepTrace.
+  Variable R : mstate -> mstate -> Prop.
+  Hypothesis R_refl : forall s, R s s.
+  Hypothesis R_trans : forall a b c, R a b -> R b c -> R a c.
+  Hypothesis R_exec : forall o e sender fs m s s' out,
+    Inv s -> execute o e sender fs m s = Ok (s', out) -> R s s'.
+
+  (** [k] keeps the invariant and relates the marketplace state before to the one after. *)
+  Definition keeps (k : world -> world) : Prop :=
+    forall w, Inv (market w) -> Inv (market (k w)) /\ R (market w) (market (k w)).
+
+  Lemma gdispatch_keeps k (Hk : keeps k) ms : forall w i fail armed w',
+    gdispatch k w i fail armed ms = Ok w' -> Inv (market w) -> Inv (market w') /\ R (market w) (market w').
+  Proof.
+    induction ms as [|m r IH]; intros w i fail armed w' H I; [simpl in H; inv H; split; [exact I | apply R_refl]|].
+    cbn [gdispatch] in H. step H; [discriminate|]. step H. rename x into w1.
+    pose proof (dispatch1_static _ _ _ Hb) as (Em & _).
+    assert (I1 : Inv (market w1)) by (rewrite Em; exact I). rewrite <- Em.
+    destruct (armed && to_hostile w m).
+    - destruct (Hk w1 I1) as [I2 R2]. destruct (IH _ _ _ _ _ H I2) as [I3 R3].
+      split; [exact I3 | eapply R_trans; eassumption].
+    - apply (IH _ _ _ _ _ H I1).
+  Qed.
+
+  Lemma gstep_keeps k o : keeps k -> keeps (fun w => fst (gstep k w o)).
+  Proof.
+    intros Hk w I. unfold gstep. destruct (gtry_step k w o) as [[w' out]|] eqn:H; cbn [fst]; [|split; [exact I | apply R_refl]].
+    destruct (enter w o) as [r|] eqn:En.
+    - rewrite (gtry_step_enter _ _ _ _ En) in H. destruct r as [[[[[w1 sender] fs] m] fail]|]; [|discriminate].
+      pose proof (enter_market _ _ _ _ _ _ _ En) as Em.
+      unfold grun_market in H. step H. destruct x as [s' out']. step H. inv H.
+      assert (I1 : Inv (market w1)) by (rewrite Em; exact I).
+      assert (I2 : Inv (market (set_market w1 s'))) by (simpl; eapply execute_pres; [exact I1 | exact Hb]).
+      destruct (gdispatch_keeps k Hk _ _ _ _ _ _ Hb0 I2) as [I3 R3]. split; [exact I3|].
+      rewrite <- Em. eapply R_trans; [eapply R_exec; [exact I1 | exact Hb] | exact R3].
+    - rewrite (gtry_step_other _ _ _ En) in H.
+      pose proof (step_Inv w o I) as G1. pose proof (step_R R R_refl R_exec w o I) as G2.
+      rewrite step_fst, H in G1, G2. split; assumption.
+  Qed.
+
+  Theorem reaction_keeps k : reaction k -> keeps k.
+  Proof.
+    induction 1 as [| k1 k2 _ IH1 _ IH2 | o k _ IH].
+    - intros w I. split; [exact I | apply R_refl].
+    - intros w I. destruct (IH1 w I) as [I1 R1]. destruct (IH2 (k1 w) I1) as [I2 R2].
+      split; [exact I2 | eapply R_trans; eassumption].
+    - apply gstep_keeps, IH.
+  Qed.
+End DeepTrace.
+
+(** Instances. *)
+Theorem reaction_Inv k w : reaction k -> Inv (market w) -> Inv (market (k w)).
+Proof.
+  intros Hr I. apply (reaction_keeps (fun _ _ => True)); auto.
+Qed.
+
+Theorem deep_wf w prog : initial w ->
+  let s := market (trun w prog) in
+  (forall k l, In (k, l) (listings s) -> wf_listing k l) /\
+  (forall k b, In (k, b) (buckets s) -> wf_bucket k b).
+Proof.
+  intros [t Ht] s. assert (I : Inv s).
+  { apply (reaction_Inv (fun w1 => trun w1 prog)); [apply trun_reaction | eapply Inv_init; exact Ht]. }
+  split; [apply (inv_l _ I) | apply (inv_b _ I)].
+Qed.
+
+Theorem reaction_rank_mono k w id :
+  reaction k -> Inv (market w) -> (lrank (market w) id <= lrank (market (k w)) id)%nat.
+Proof.
+  intros Hr I. apply (reaction_keeps (fun s s' => (lrank s id <= lrank s' id)%nat)); try assumption.
+  - intros s. lia.
+  - intros a b c H1 H2. lia.
+  - intros o e sender fs m s s' out Is H. eapply execute_rank_mono; eassumption.
+Qed.
+
+Theorem reaction_brank_mono k w id :
+  reaction k -> Inv (market w) -> (brank (market w) id <= brank (market (k w)) id)%nat.
+Proof.
+  intros Hr I. apply (reaction_keeps (fun s s' => (brank s id <= brank s' id)%nat)); try assumption.
+  - intros s. lia.
+  - intros a b c H1 H2. lia.
+  - intros o e sender fs m s s' out Is H. eapply execute_brank_mono; eassumption.
+Qed.
+
+Theorem reaction_used_mono k w :
+  reaction k -> Inv (market w) ->
+  incl (l_used (market w)) (l_used (market (k w))) /\ incl (b_used (market w)) (b_used (market (k w))).
+Proof.
+  intros Hr I.
+  apply (reaction_keeps (fun s s' => incl (l_used s) (l_used s') /\ incl (b_used s) (b_used s'))); try assumption.
+  - intros s. split; apply incl_refl.
+  - intros a b c [A1 A2] [B1 B2]. split; eapply incl_tran; eassumption.
+  - intros o e sender fs m s s' out _ H. eapply execute_used_mono, H.
+Qed.
+
+(** Claimed once, for good, whatever nesting happens in between. *)
+Theorem withdrawn_bucket_stays_withdrawn_deep k w id o e sender fs :
+  reaction k -> Inv (market w) -> (2 <= brank (market w) id)%nat ->
+  is_ok (execute o e sender fs (RemoveBucket id) (market (k w))) = false.
+Proof.
+  intros Hr I H2. pose proof (reaction_brank_mono k w id Hr I) as Hm. pose proof (reaction_Inv k w Hr I) as I'.
+  destruct (execute o e sender fs (RemoveBucket id) (market (k w))) as [[s' out]|] eqn:E; [|reflexivity].
+  destruct (remove_brank _ _ _ _ _ _ _ _ I' E) as [E1 _]. lia.
+Qed.
+
+Theorem exited_listing_stays_exited_deep k w id o e sender fs m :
+  reaction k -> Inv (market w) -> (4 <= lrank (market w) id)%nat -> exits_l_b m id = true ->
+  is_ok (execute o e sender fs m (market (k w))) = false.
+Proof.
+  intros Hr I H4 Hx. pose proof (reaction_rank_mono k w id Hr I) as Hm. pose proof (reaction_Inv k w Hr I) as I'.
+  destruct (execute o e sender fs m (market (k w))) as [[s' out]|] eqn:E; [|reflexivity].
+  destruct (exit_rank _ _ _ _ _ _ _ _ _ I' E Hx) as [E1 _]. lia.
+Qed.
